@@ -65,10 +65,11 @@ structure RecOK (r : Rec) (Q : ANode → Prop) : Prop where
   expr : ∀ ctx c, isExpr c = true → Q c → Post (r.expr ctx c) (fun d => Carries d (specAll c))
   pattern : ∀ ctx c, isPattern c = true → Q c → Post (r.pattern ctx c) (fun d => Carries d (specAll c))
   paren : ∀ ctx c, c.kind = .parenthesized → c.attrs.disabled = false → Q c → Post (r.paren ctx c) (fun d => Carries d (specAll c))
+  markup : ∀ ctx c scope, c.kind = .markup → Q c → Post (r.markup ctx c scope) (fun d => Carries d (specAll c))
 
 /-- What a construct may assume of a child: lexical shape, and — if it is an expression or pattern —
 that it satisfies `Q`. -/
-def ChildOK (Q : ANode → Prop) (c : ANode) : Prop := ANode.tokensAreLeaves c = true ∧ (isPattern c = true → Q c)
+def ChildOK (Q : ANode → Prop) (c : ANode) : Prop := ANode.tokensAreLeaves c = true ∧ Q c
 
 theorem isPattern_of_isExpr {c : ANode} (h : isExpr c = true) : isPattern c = true := by
   unfold isPattern; simp [h]
@@ -115,10 +116,10 @@ theorem namedProducer_ok {Q : ANode → Prop} (e : Env) (r : Rec) (hr : RecOK r 
     exact Post.bind (synLeaf_carries e child ":" hok.1 (by rw [hk']; rfl)) (fun d hd => Post.pure hd)
   · split
     · rename_i hx
-      exact Post.bind (hr.expr c child hx (hok.2 (isPattern_of_isExpr hx))) (fun d hd => Post.pure hd)
+      exact Post.bind (hr.expr c child hx hok.2) (fun d hd => Post.pure hd)
     · split
       · rename_i hx
-        exact Post.bind (hr.pattern c child hx (hok.2 hx)) (fun d hd => Post.pure hd)
+        exact Post.bind (hr.pattern c child hx hok.2) (fun d hd => Post.pure hd)
       · split
         · rename_i hk
           exact Post.pure (specAll_space child hok.1 (by simpa using hk))
@@ -138,7 +139,7 @@ theorem keyedProducer_ok {Q : ANode → Prop} (e : Env) (r : Rec) (hr : RecOK r 
     exact Post.bind (synLeaf_carries e child ":" hok.1 (by rw [hk']; rfl)) (fun d hd => Post.pure hd)
   · split
     · rename_i hx
-      exact Post.bind (hr.expr c child hx (hok.2 (isPattern_of_isExpr hx))) (fun d hd => Post.pure hd)
+      exact Post.bind (hr.expr c child hx hok.2) (fun d hd => Post.pure hd)
     · split
       · rename_i hk
         exact Post.pure (specAll_space child hok.1 (by simpa using hk))
@@ -157,7 +158,7 @@ theorem spreadProducer_ok {Q : ANode → Prop} (e : Env) (r : Rec) (hr : RecOK r
     exact Post.bind (synLeaf_carries e child ".." hok.1 (by rw [hk']; rfl)) (fun d hd => Post.pure hd)
   · split
     · rename_i hx
-      exact Post.bind (hr.expr c child hx (hok.2 (isPattern_of_isExpr hx))) (fun d hd => Post.pure hd)
+      exact Post.bind (hr.expr c child hx hok.2) (fun d hd => Post.pure hd)
     · split
       · rename_i hk
         exact Post.pure (specAll_space child hok.1 (by simpa using hk))
@@ -178,8 +179,8 @@ theorem unaryProducer_ok {Q : ANode → Prop} (e : Env) (r : Rec) (hr : RecOK r 
   · split
     · rename_i hx
       split
-      · exact Post.bind (hr.expr c child hx (hok.2 (isPattern_of_isExpr hx))) (fun d hd => Post.pure hd)
-      · exact Post.bind (hr.expr c child hx (hok.2 (isPattern_of_isExpr hx))) (fun d hd => Post.pure hd)
+      · exact Post.bind (hr.expr c child hx hok.2) (fun d hd => Post.pure hd)
+      · exact Post.bind (hr.expr c child hx hok.2) (fun d hd => Post.pure hd)
     · split
       · rename_i hk
         exact Post.pure (specAll_space child hok.1 (by simpa using hk))
@@ -195,7 +196,7 @@ theorem letProducer_ok {Q : ANode → Prop} (e : Env) (r : Rec) (hr : RecOK r Q)
     exact Post.bind (synLeaf_carries e child "=" hok.1 (by rw [hk']; rfl)) (fun d hd => Post.pure hd)
   · split
     · rename_i hx
-      exact Post.bind (hr.pattern c child hx (hok.2 hx)) (fun d hd => Post.pure hd)
+      exact Post.bind (hr.pattern c child hx hok.2) (fun d hd => Post.pure hd)
     · split
       · rename_i hk
         exact Post.pure (specAll_space child hok.1 (by simpa using hk))
@@ -207,7 +208,7 @@ theorem exprFlowProducer_ok {Q : ANode → Prop} (r : Rec) (hr : RecOK r Q) (wha
   unfold exprFlowProducer
   split
   · rename_i hx
-    exact Post.bind (hr.expr c child hx (hok.2 (isPattern_of_isExpr hx))) (fun d hd => Post.pure hd)
+    exact Post.bind (hr.expr c child hx hok.2) (fun d hd => Post.pure hd)
   · split
     · rename_i hk
       exact Post.pure (specAll_space child hok.1 (by simpa using hk))
@@ -223,7 +224,7 @@ theorem showProducer_ok {Q : ANode → Prop} (e : Env) (r : Rec) (hr : RecOK r Q
     exact Post.bind (synLeaf_carries e child ":" hok.1 (by rw [hk']; rfl)) (fun d hd => Post.pure hd)
   · split
     · rename_i hx
-      exact Post.bind (hr.expr c child hx (hok.2 (isPattern_of_isExpr hx))) (fun d hd => Post.pure hd)
+      exact Post.bind (hr.expr c child hx hok.2) (fun d hd => Post.pure hd)
     · split
       · rename_i hk
         exact Post.pure (specAll_space child hok.1 (by simpa using hk))
@@ -236,10 +237,52 @@ theorem flow_construct_carries {σ : Type} {Q : ANode → Prop} (e : Env) (ctx :
     (producer : σ → Ctx → ANode → M (σ × Option FlowItem))
     (hp : ProducerS producer specAll (ChildOK Q))
     (hv : isVerbatimNode k cs a = false) (hraw : k ≠ .raw)
-    (hw : ANode.tokensAreLeavesL cs = true) (hq : ∀ c ∈ cs, isPattern c = true → Q c) :
+    (hw : ANode.tokensAreLeavesL cs = true) (hq : ∀ c ∈ cs, Q c) :
     Post (flowM e ctx cs st producer) (fun d => Carries d (specAll (.inner k cs a))) := by
   rw [specAll_inner k cs a hv hraw, ← contribL_specAll cs hw]
   exact flowM_carries (commentOK e) hp (fun c hok hk => specAll_space c hok.1 hk) cs
     (fun c hc => ⟨tokensAreLeavesL_mem hw hc, hq c hc⟩) st
+
+theorem headingProducer_ok {Q : ANode → Prop} (e : Env) (r : Rec) (hr : RecOK r Q) :
+    ProducerS (headingProducer e r) specAll (ChildOK Q) := by
+  intro st c child hok
+  unfold headingProducer
+  split
+  · rename_i hk
+    exact Post.pure (tok_carries e child hok.1 (by rw [show child.kind = .headingMarker by simpa using hk]; rfl))
+  · split
+    · rename_i hk
+      exact Post.bind (hr.markup c child .item (by simpa using hk) hok.2) (fun d hd => Post.pure hd)
+    · split
+      · rename_i hk
+        exact Post.pure (specAll_space child hok.1 (by simpa using hk))
+      · exact Post.rejected _
+
+theorem specAll_parbreak (c : ANode) (h : ANode.tokensAreLeaves c = true) (hk : c.kind = .parbreak) : specAll c = {} := by
+  obtain ⟨t, a, hc⟩ := leaf_of_token h (by rw [hk]; rfl)
+  rw [hc, hk]
+  apply Streams.ext' <;> simp [specAll, specToks, specCmts, specProse, specLit, specVerb, isCommentKind, Kind.isExpr, leafTag]
+
+theorem listItemProducer_ok {Q : ANode → Prop} (e : Env) (r : Rec) (hr : RecOK r Q) :
+    ProducerS (listItemProducer e r) specAll (fun c => ChildOK Q c ∧ (c.kind = .markup → c.children.isEmpty = true → specAll c = {})) := by
+  intro st c child hok
+  unfold listItemProducer
+  split
+  · rename_i hk; exact Post.pure (tok_carries e child hok.1.1 (by rw [hk]; rfl))
+  · rename_i hk; exact Post.pure (tok_carries e child hok.1.1 (by rw [hk]; rfl))
+  · rename_i hk; exact Post.pure (tok_carries e child hok.1.1 (by rw [hk]; rfl))
+  · rename_i hk; exact Post.pure (tok_carries e child hok.1.1 (by rw [hk]; rfl))
+  · rename_i hk
+    split
+    · exact Post.pure (by rw [specAll_space child hok.1.1 hk]; exact Carries.hardline)
+    · exact Post.pure (specAll_space child hok.1.1 hk)
+  · rename_i hk
+    exact Post.pure (by rw [specAll_parbreak child hok.1.1 hk]; exact Carries.repeatN Carries.hardline _)
+  · rename_i hk
+    split
+    · exact Post.bind (hr.markup c child .item hk hok.1.2) (fun d hd => Post.pure hd)
+    · rename_i he
+      exact Post.pure (hok.2 hk (by simpa using he))
+  · exact Post.rejected _
 
 end Typstyle
